@@ -15,7 +15,7 @@ TECHNIQUE = 'runtime post-condition monitor vs exact propagator (60-digit mpmath
 RULE = ('cases = calls of response_series / nigam_and_jennings_response / AccSignal.response_series on generated records '
         '(14 shape classes incl. impulses, hats, steps, zero-padded, alternating, integer-valued, windows of the shipped '
         'ground motion; lengths 2..400 quick / up to 20000 thorough; amplitudes 1e-6..1e6; float64/float32/int64/list '
-        'containers) x dt log-uniform [1e-3,1] and nice decimals x 6 periods per call with T/dt log-uniform over [0.2,2e4] '
+        'containers) x dt log-uniform [1e-3,1], nice decimals and extreme time bases 1e-9..1e3 x 6 periods per call with T/dt log-uniform over [0.2,2e4] '
         'plus pinned {0.2,0.5,1,2,5.9,6,6.1,20,2e4}, optional leading 0 x xi in {0,.02,.05,.2,.5,.9,.99,1-1e-6,1-1e-9,'
         '1-1e-12,U(0,1)}; object-level histories call, mutate values, call again. distinct = digest(record, dt, periods, '
         'xi, entry point); non-trivial = record not identically zero and at least one period > 0.')
@@ -194,6 +194,8 @@ def draw_case(rng, tier):
                                                                 (int(rng.integers(400, 3000)) if r < 0.97 else int(rng.integers(3000, 20001))))
     x, cls = gen.record(rng, n)
     dt = gen.dt(rng, 'log' if rng.random() < 0.6 else 'nice')
+    if rng.random() < 0.15:     # extreme time bases (nanoseconds .. kiloseconds): "all dt > 0"
+        dt = float(10 ** (rng.uniform(-9, -3) if rng.random() < 0.6 else rng.uniform(0, 3)))
     ratios = 10 ** rng.uniform(np.log10(0.2), np.log10(2e4), size=6)
     for k in range(6):
         if rng.random() < 0.25:
